@@ -118,6 +118,8 @@ def model_positions(m, idx, tolmode, tol):
             t = tol
         if is_full(ix):
             pos.append(list(range(len(lab))))
+        elif isinstance(ix, slice):
+            pos.append(model.slice_positions(lab, ix.start, ix.stop, ix.step))
         elif isinstance(ix, np.ndarray) and ix.dtype.kind == 'b' or (isinstance(ix, list) and len(ix) and all(isinstance(b, bool) for b in ix)):
             pos.append([i for i, b in enumerate(list(ix)) if b])
         elif isinstance(ix, (list, np.ndarray)):
